@@ -20,6 +20,9 @@ use zipora::compression::{
 use zipora::entropy::rans::{ParallelX1, Rans64Encoder};
 use zipora::memory::{SecureMemoryPool, SecurePoolConfig};
 
+#[path = "c02_x.rs"]
+mod x;
+
 const HEADER: &str = r#"From ZV.Common Require Import Base Run.
 From ZV.C02 Require Import Model RunCase.
 Open Scope N_scope.
@@ -824,6 +827,8 @@ fn run_one(cx: &mut Ctx, c: &Value) {
         }
         "pazip_big" => pazip_big_case(cx, c["preset"].as_u64().unwrap_or(0) as usize, c["n"].as_u64().unwrap_or(0) as usize, c["seed"].as_u64().unwrap_or(0)),
         "simd_lz77/inherent" => simd_lz77_case(cx, &bytes_of(&c["data"])),
+        "big" => x::big_case(cx, c["front"].as_u64().unwrap_or(0), c["sel"].as_u64().unwrap_or(0) as usize, c["kind"].as_u64().unwrap_or(0), c["n"].as_u64().unwrap_or(0) as usize),
+        "realtime_batch" => x::realtime_batch_case(cx, c["mode"].as_u64().unwrap_or(0) as usize, c["fallback"].as_bool().unwrap_or(true), c["item_len"].as_u64().unwrap_or(0) as usize, c["n_big"].as_u64().unwrap_or(0) as usize, c["seed"].as_u64().unwrap_or(0)),
         "pazip/legacy_decode_raw" => legacy_raw(cx, &bytes_of(&c["data"])),
         "pazip/legacy_records" => {
             let ops: Vec<Vec<u64>> = c["ops"].as_array().map(|a| a.iter().map(|o| o.as_array().map(|v| v.iter().map(|x| x.as_u64().unwrap_or(0)).collect()).unwrap_or_default()).collect()).unwrap_or_default();
@@ -1022,6 +1027,8 @@ pub fn run(args: &Args) {
         cx.rng = r;
         realtime_case(&mut cx, k % 4, fb, &steps);
     }
+    // 5b. families added after seeded-change round 2 (large compressible payloads, batches that overrun)
+    x::run_extension_oracle(&mut cx, th);
     // 6. PA-Zip compressor presets and SIMD LZ77
     for k in 0..(if th { 900 } else { 90 }) {
         let mut r = cx.rng.clone();
